@@ -199,14 +199,19 @@ impl PathSliceList {
                 write!(w, r#":"#)?;
                 false_br.write_lvalue_path(w, scopes, model)?;
             } else {
-                write!(w, r#"{}?"#, cond)?;
-                if true_br.write_lvalue_path(w, scopes, model)?.is_some() {
+                // a branch may itself be a conditional: parenthesised, so that `.concat` applies to all of it
+                write!(w, r#"{}?("#, cond)?;
+                let true_written = true_br.write_lvalue_path(w, scopes, model)?.is_some();
+                write!(w, r#")"#)?;
+                if true_written {
                     write!(w, r#".concat("#)?;
                     br(w)?;
                     write!(w, r#")"#)?;
                 }
-                write!(w, r#":"#)?;
-                if false_br.write_lvalue_path(w, scopes, model)?.is_some() {
+                write!(w, r#":("#)?;
+                let false_written = false_br.write_lvalue_path(w, scopes, model)?.is_some();
+                write!(w, r#")"#)?;
+                if false_written {
                     write!(w, r#".concat("#)?;
                     br(w)?;
                     write!(w, r#")"#)?;
